@@ -278,6 +278,13 @@ def run(ctx: Ctx):
     crossed = {w: kw.get(w) for w in WEIGHTS if kw.get(w) != w}
     ctx.ob("C18-O4", "R7 EVALUATOR-EXCLUSIVE", sv, "alns receives vrp_objective with each of the caller's weights bound to the parameter of the same name", not crossed and "alns(initial, objective, destroy_ops, repair_ops" in ast.unparse(sv.node).replace("\n", "").replace("        ", ""), f"{crossed}: a weight bound to another term's parameter scores that term with the wrong penalty, and the reported objective is not the documented sum for the caller's weights", node=wcall)
     ctx.step(_search_result_returned_untouched, sv)
+    from .sat_common import _need as _need_j
+
+    ctx.step(_need_j, "C18-O1", "R29 EXACTLY-ONCE", ctx.func("job_shop", "_rebuild_schedule"), "the rebuilt schedule places every operation of every job: the work list holds each (job, operation) once and the loop runs until all of them are scheduled", ["all_ops = []\n    for j, job in enumerate(jobs):\n        for op_idx in range(len(job)):\n            all_ops.append((j, op_idx))", "scheduled = set()\n    while len(scheduled) < len(all_ops):", "new_schedule[j, op_idx] = (start, end)\n        machine_free[machine] = end\n        job_free[j] = end\n        scheduled.add((j, op_idx))", "return new_schedule"], "a rebuilt schedule that lacks operations has a smaller makespan and is accepted as an improvement")
+    from .sat_common import _need as _need_d
+
+    ctx.step(_need_d, "C18-O4", "R16 PAIRED-EFFECTS", ctx.func("vrp", "VRPState.from_problem"), "the cached distance table holds the Euclidean distance of every pair, in both orientations", ["dist = [[0.0] * n for _ in range(n)]\n        for i in range(n):\n            for j in range(i + 1, n):\n                d = hypot(customers[i].x - customers[j].x, customers[i].y - customers[j].y)\n                dist[i][j] = d\n                dist[j][i] = d"], "the distance term of the objective and the arrival times read this table")
+    ctx.step(_need_d, "C18-O4", "R16 PAIRED-EFFECTS", ctx.func("vrp", "VRPState.dist"), "dist() answers from the cached table when there is one and with the Euclidean distance otherwise", ["if self._dist is not None:\n            return self._dist[i][j]\n        ci, cj = (self.customers[i], self.customers[j])\n        return hypot(ci.x - cj.x, ci.y - cj.y)"])
     vo = ctx.func("vrp", "vrp_objective")
     tv = ast.unparse(vo.node)
     terms = ["distance_weight * state.total_distance()", "vehicle_weight * state.vehicles_used()", "tw_penalty * state.time_window_violation()", "capacity_penalty * state.capacity_violation()", "sync_penalty * state.sync_violation()", "unassigned_penalty * len(state.unassigned)"]
